@@ -505,10 +505,12 @@ class Model:
         # If merge, combine adjacent layers of identical properties.
         if merge:
 
-            # Get indices of non-merge sequences.
+            # Get indices of non-merge sequences; the first layer always
+            # starts one, whatever its value.
             diff = np.zeros(self.shape[2])
+            diff[0] = 1.0
             for k, v in props.items():
-                diff += abs(np.diff(np.r_[-1, v]))
+                diff[1:] += abs(np.diff(v))
             ind = diff.nonzero()[0]
 
             # Merge.
